@@ -2,6 +2,7 @@ package main
 
 import (
 	"fmt"
+	"go/token"
 	"go/types"
 	"sort"
 	"strings"
@@ -641,6 +642,104 @@ func runC06(c *Ctx) {
 			c.Check(fmt.Sprintf("%s#fresh-%s", fname(rs), nm), rs.Pos(), fresh, ifelse(fresh, "assigned a fresh value", "StateDB."+nm+" (filled from the staking trie by "+caches[f]+") keeps its content across the reset: a live record of the old period shadows the new empty trie, so a carried state and a fresh state compute different staking roots for the same block"))
 		}
 	}
+	// ------------------------------------------------------------ N9
+	c.Rule("C06.N9", "MAP-ORDER", "a loop over a map that writes into a trie does not stop half way: in core/state a range over a map whose body calls TryUpdate / TryDelete on a trie has no exit other than the end of the map — an early return (also on an error) leaves the trie with the entries of the keys that happened to come first, and since the error of the staking-trie flush is not what decides the block, the same block then yields different roots on different runs. (Encode first, then write; or iterate sorted keys.)")
+	c.Min(1)
+	{
+		nLoops := 0
+		for _, fn := range w.FuncsIn(statePkg) {
+			if fn.Blocks == nil || strings.HasSuffix(w.fileOf(fn.Pos()), "_test.go") {
+				continue
+			}
+			for _, mr := range mapRanges(fn) {
+				writes := false
+				for b := range mr.Loop {
+					for _, in := range b.Instrs {
+						if ci, ok := in.(ssa.CallInstruction); ok {
+							if o := calleeObj(ci); o != nil && (o.Name() == "TryUpdate" || o.Name() == "TryDelete") {
+								writes = true
+							}
+						}
+					}
+				}
+				if !writes {
+					continue
+				}
+				nLoops++
+				c.sites++
+				c.sawFunc(fname(fn))
+				early := ""
+				for b := range mr.Loop {
+					for _, sc := range b.Succs {
+						if mr.Loop[sc] || b == mr.Header {
+							continue
+						}
+						// an exit from the loop body (not the header's "map exhausted" edge)
+						early = w.Pos(b.Instrs[len(b.Instrs)-1].Pos())
+						if early == "-" || early == "" {
+							early = fmt.Sprintf("block %d", b.Index)
+						}
+					}
+				}
+				c.Check(fmt.Sprintf("%s#map-range-%d-writes-all-or-nothing", fname(fn), mr.Ordinal), mr.Range.Pos(), early == "", ifelse(early == "", "the loop ends only when the map is exhausted", "the loop over a map writes trie entries and can be left early ("+early+"): which entries were written before the exit depends on the iteration order — with one un-encodable dirty staking record (a pending record driven negative by a withdraw followed by a larger delegation-sub) the builder's block gets a different staking root on each import"))
+			}
+		}
+		if nLoops == 0 {
+			c.Undecided(statePkg+"#map-ranges-writing-tries", token.NoPos, "no range over a map that writes into a trie found in core/state")
+		}
+	}
+
+	// ------------------------------------------------------------ N10
+	c.Rule("C06.N10", "WHO-MAY-CALL", "block execution reads nothing that is not committed state: no function reachable from block execution asks a secure trie for the pre-image of a hashed key (SecureTrie.GetKey, trie.Database pre-image table). Pre-images are a node-local side table filled only on nodes that executed the writes themselves; a node that obtained the identical parent state by fast sync has none, silently sees fewer records and computes another root for the same block")
+	c.Min(1)
+	{
+		getKey := w.Fn("trie", "SecureTrie", "GetKey")
+		if getKey == nil {
+			c.Undecided("trie.SecureTrie.GetKey", token.NoPos, "the pre-image accessor of the secure trie is not found")
+		} else {
+			// the accessor itself, or the same method of an interface the secure trie is used through
+			isPre := func(o *types.Func) bool {
+				if o == nil || o.Name() != "GetKey" {
+					return false
+				}
+				if o == getKey.Object() {
+					return true
+				}
+				sig, _ := o.Type().(*types.Signature)
+				if sig == nil || sig.Recv() == nil {
+					return false
+				}
+				if it, ok := sig.Recv().Type().Underlying().(*types.Interface); ok {
+					return types.Implements(getKey.Signature.Recv().Type(), it)
+				}
+				return false
+			}
+			// positive control: the accessor has callers in the repository at all (the state dump)
+			anyCaller := 0
+			for _, fn := range w.AllFuncs() {
+				if fn.Blocks == nil || strings.HasSuffix(w.fileOf(fn.Pos()), "_test.go") {
+					continue
+				}
+				for _, ci := range callInstrs(fn) {
+					if isPre(calleeObj(ci)) {
+						anyCaller++
+					}
+				}
+			}
+			c.Check("trie.SecureTrie.GetKey#has-callers", getKey.Pos(), anyCaller > 0, fmt.Sprintf("%d call sites of the pre-image accessor in the repository (the rule is not vacuous)", anyCaller))
+			for _, fn := range fns {
+				k := 0
+				for _, ci := range callInstrs(fn) {
+					if !isPre(calleeObj(ci)) {
+						continue
+					}
+					c.sites++
+					c.Fail(fmt.Sprintf("%s#reads-preimage-%d", fname(fn), k), ci.Pos(), "reads the pre-image of a trie key inside block execution: the answer comes from a node-local table (filled only where the key was written by execution), not from the state the block starts from — a fast-synced node skips the record and rejects the period's last block [reached via "+pathTo(reach, fn)+"]")
+					k++
+				}
+			}
+		}
+	}
 }
 
 func chainMakerFuncs(w *World) []*ssa.Function {
@@ -680,6 +779,7 @@ func c06Variants() []Variant {
 		{Name: "head-as-parent-again", File: "staking/slash.go", Old: "	parentHeight := new(big.Int).Sub(header.Number, big.NewInt(1))", New: "	parentHeight := new(big.Int).Set(ctx.chain.CurrentHeader().Number)", Rule: "C06.N2", Construct: "replaySlashing#CurrentHeader"},
 		{Name: "clock-in-log-topic", File: "staking/handler.go", Old: "		Topics:      []common.Hash{common.StringToHash(LogTopicWithdraw), tx.MainAddress.Hash()},\n		Data:        combinePendingStakingLogData(ctx.Cfg.CurrYouParams.StakingTrieFrequency, number, finalStaking),", New: "		Topics:      []common.Hash{common.StringToHash(LogTopicWithdraw), tx.MainAddress.Hash(), common.BigToHash(big.NewInt(time.Now().Unix()))},\n		Data:        combinePendingStakingLogData(ctx.Cfg.CurrYouParams.StakingTrieFrequency, number, finalStaking),", Rule: "C06.N2", Construct: "handleWithdraw#Now"},
 		{Name: "seal-only-rewards", File: "staking/endblock.go", Old: "		// rewards to pool for each block\n		rewardsToPool(ctx)", New: "		// rewards to pool for each block\n		if !isSeal || header.Number.Uint64()%7 != 0 {\n			rewardsToPool(ctx)\n		}", Rule: "C06.N3", Construct: "isSeal-use"},
+		{Name: "flush-stops-half-way", File: "core/state/statedb_staking.go", Old: "		updates = append(updates, encodedRecord{key, data})\n", New: "		if st.stakingTrie.TryUpdate(key[:], data) != nil {\n			break\n		}\n", Rule: "C06.N9", Construct: "updateStakingTrie"},
 	}
 }
 
